@@ -158,6 +158,113 @@ Proof.
   inversion Ht. now left.
 Qed.
 
+(* ---------------------------------------------------------------- several cookies in one parse_cookie call
+   parse_cookies btxt declen h name cs models CookieHandler.parse_cookie(name, cookies) for a LIST of cookie dicts
+   (option name, value).  contribution btxt h name c = [e] if c carries the requested name and parse_cookie
+   accepts c's value ALONE with content e, [] otherwise.  So: every returned entry is the content of the
+   cookie standing at its position, forged cookies contribute nothing, and nothing a cookie's verification
+   leaves behind reaches the next one — for every mixture and every order of genuine and forged cookies. *)
+Theorem C17_list_compositional : forall btxt declen h name cs out,
+  parse_cookies btxt declen h name cs = Ok (Some out) -> out = flat_map (contribution btxt h name) cs.
+Proof. exact list_compositional. Qed.
+Print Assumptions C17_list_compositional.
+
+(* the call raises only if a cookie of the requested name raises on its own (then nothing is returned at all) *)
+Theorem C17_list_raises : forall btxt declen h name cs e,
+  parse_cookies btxt declen h name cs = Err e ->
+  exists c, In c cs /\ name_is name c = true /\ parse_turn btxt declen h (snd c) = Err e.
+Proof. exact list_raises. Qed.
+Print Assumptions C17_list_raises.
+
+(* ... and otherwise returns exactly the contributions *)
+Theorem C17_list_total : forall btxt declen h name cs,
+  cs <> [] ->
+  (forall c, In c cs -> name_is name c = true -> exists x, parse_turn btxt declen h (snd c) = Ok x) ->
+  parse_cookies btxt declen h name cs = Ok (Some (flat_map (contribution btxt h name) cs)).
+Proof. exact list_total. Qed.
+Print Assumptions C17_list_total.
+
+(* re-ordering the cookies re-orders the entries and does nothing else *)
+Theorem C17_list_order : forall btxt declen h name cs cs' out,
+  Permutation.Permutation cs cs' -> parse_cookies btxt declen h name cs = Ok (Some out) ->
+  exists out', parse_cookies btxt declen h name cs' = Ok (Some out') /\ Permutation.Permutation out out'.
+Proof. exact list_order. Qed.
+Print Assumptions C17_list_order.
+
+(* round trip of a whole cookie jar: cookies that parse back alone (C17_roundtrip_<mode>) come back together,
+   in order, each with its own content *)
+Theorem C17_list_roundtrip : forall btxt declen h name (gs : list (wire * content)),
+  gs <> [] -> (forall g, In g gs -> parse_cookie btxt h (fst g) = Ok (snd g)) ->
+  parse_cookies btxt declen h name (List.map (fun g => (Some name, fst g)) gs) = Ok (Some (List.map snd gs)).
+Proof. exact list_roundtrip. Qed.
+Print Assumptions C17_list_roundtrip.
+
+(* tamper evidence for the list: whatever cookie values the adversary assembles and in whatever order it
+   presents them, every returned entry carries the content of a cookie the provider issued *)
+Theorem C17_list_tamper_evident_signed : forall btxt declen G ks name cs out,
+  let h := mk_handler (Some ks) None None in
+  (forall c, In c cs -> wire_derivable (knowledge h G) (snd c)) ->
+  parse_cookies btxt declen h name cs = Ok (Some out) -> Forall (genuine_entry G) out.
+Proof. exact list_tamper_signed. Qed.
+Print Assumptions C17_list_tamper_evident_signed.
+
+Theorem C17_list_tamper_evident_signed_encrypted : forall btxt declen G ks ke name cs out,
+  let h := mk_handler (Some ks) (Some ke) None in
+  (forall c, In c cs -> wire_derivable (knowledge h G) (snd c)) ->
+  parse_cookies btxt declen h name cs = Ok (Some out) -> Forall (genuine_entry G) out.
+Proof. exact list_tamper_signed_encrypted. Qed.
+Print Assumptions C17_list_tamper_evident_signed_encrypted.
+
+Theorem C17_list_tamper_evident_encrypted : forall btxt declen G ke name cs out,
+  let h := mk_handler None (Some ke) None in
+  (forall c, In c cs -> wire_derivable (knowledge h G) (snd c)) ->
+  parse_cookies btxt declen h name cs = Ok (Some out) -> Forall (genuine_entry G) out.
+Proof. exact list_tamper_encrypted. Qed.
+Print Assumptions C17_list_tamper_evident_encrypted.
+
+Theorem C17_list_tamper_evident_encrypter : forall btxt declen G kc name cs out,
+  (forall g, In g G -> last_is space (g_typ g) = false) ->
+  let h := mk_handler None None (Some kc) in
+  (forall c, In c cs -> wire_derivable (knowledge h G) (snd c)) ->
+  parse_cookies btxt declen h name cs = Ok (Some out) -> Forall (genuine_entry G) out.
+Proof. exact list_tamper_encrypter. Qed.
+Print Assumptions C17_list_tamper_evident_encrypter.
+
+(* non-vacuity: a jar with two genuine cookies, a forged one between / before / after them, a cookie of another
+   name and a dict without a name.  Signed-only: a wrong MAC raises -> the whole call is refused in every order.
+   Signed+encrypted: a wrong tag is dropped -> exactly the two genuine contents, in the order presented. *)
+Definition dl (s : pystr) : option nat := if str_eqb s (PS "aXY=") then Some 12%nat else None.
+Example C17_list_nonvacuous :
+  let n := PS "oidc_op" in
+  let a := make_cookie hS (PS "alice") (PS "sso") (PS "17") 0 (PS "iv") in
+  let b := make_cookie hS (PS "bob") [] (PS "18") 0 (PS "iv") in
+  let f := (chs (PS "18|mallory::sso|") ++ [Bl (mac_of 1 (PS "bob::") (PS "18"))])%list in
+  let ca := (PS "alice", PS "sso", PS "17") in let cb := (PS "bob", @nil N, PS "18") in
+  parse_cookies nob dl hS n [(Some n, a); (Some (PS "other"), f); (None, f); (Some n, b)] = Ok (Some [ca; cb])
+  /\ parse_cookies nob dl hS n [(Some n, b); (Some n, a)] = Ok (Some [cb; ca])
+  /\ is_ok (parse_cookies nob dl hS n [(Some n, a); (Some n, f)]) = false
+  /\ is_ok (parse_cookies nob dl hS n [(Some n, f); (Some n, a)]) = false
+  /\ is_ok (parse_cookies nob dl hS n [(Some n, a); (Some n, f); (Some n, b)]) = false
+  /\ parse_cookies nob dl hS n [] = Ok None
+  /\ parse_cookies nob dl hS n [(Some (PS "other"), a)] = Ok (Some []).
+Proof. repeat split; vm_compute; reflexivity. Qed.
+
+Example C17_list_nonvacuous_dropped :
+  let n := PS "oidc_op" in
+  let ct v t ts := AEnc 2 (PS "aXY=") (Pair (Atom (lv_pack [payload_of v t; ts])) (mac_of 1 (payload_of v t) ts)) in
+  let a := make_cookie hSE (PS "alice") (PS "sso") (PS "17") 0 (PS "aXY=") in
+  let b := make_cookie hSE (PS "bob") [] (PS "18") 0 (PS "aXY=") in
+  (* bob's ciphertext under alice's tag *)
+  let f := (chs (PS "18|aXY=|") ++ [Bl (ct (PS "bob") [] (PS "18")); Ch bar; Bl (Mac 2 (ct (PS "alice") (PS "sso") (PS "17")))])%list in
+  let ca := (PS "alice", PS "sso", PS "17") in let cb := (PS "bob", @nil N, PS "18") in
+  parse_cookies nob dl hSE n [(Some n, a); (Some n, f); (Some n, b)] = Ok (Some [ca; cb])
+  /\ parse_cookies nob dl hSE n [(Some n, f); (Some n, b); (Some n, a)] = Ok (Some [cb; ca])
+  /\ parse_cookies nob dl hSE n [(Some n, b); (Some n, a); (Some n, f); (Some n, f)] = Ok (Some [cb; ca])
+  /\ parse_cookies nob dl hSE n [(Some n, f)] = Ok (Some [])
+  (* an iv part that is no base64 raises before the tag is looked at: the whole call is refused *)
+  /\ is_ok (parse_cookies nob dl hSE n [(Some n, a); (Some n, (chs (PS "18|!|") ++ [Bl (ct (PS "bob") [] (PS "18")); Ch bar; Bl (Mac 2 (ct (PS "bob") [] (PS "18")))])%list)]) = false.
+Proof. repeat split; vm_compute; reflexivity. Qed.
+
 (* ---------------------------------------------------------------- idpyoidc.client.cookie (relying-party helper)
    Full statement — accepted => (load, timestamp) of an issued cookie — is FALSE of the faithful model and of
    the code (known finding client-cookie-boundary-shift): the MAC input is load ‖ timestamp without framing.
